@@ -152,6 +152,45 @@ where
         if x64 != pwide[0] || x32 != pwide[0] as f32 || o64 != Some(pwide[0]) || !<B as SupersetOf<f64>>::is_in_subset(&wide) || !<B as SupersetOf<f32>>::is_in_subset(&wide) {
             bad!("float-extract", format!("to_subset_unchecked = {} / {} / {:?} for real part {}", x64, x32, o64, pwide[0]));
         }
+        // --- extraction at real parts a float answers in its own way: infinite, NaN, beyond the f32 range
+        // (constants and values with parts): whatever the plain f64 -> f32 / f64 extraction answers
+        {
+            let special = *rng.choose(&[f64::INFINITY, f64::NEG_INFINITY, f64::NAN, 1e300, -1e39, 3.5e38, 1e-50, -0.0]);
+            let special = if B::IS_F32 { special as f32 as f64 } else { special };
+            let mut ss = gen_slots(&mut rng, &b, 1.0, 0, B::IS_F32);
+            ss[0] = special;
+            let with_parts = rng.bool();
+            if !with_parts {
+                for v in ss.iter_mut().skip(1) {
+                    *v = 0.0;
+                }
+            }
+            let xs: B = build_with(&shape, &ss, &mut MaskAbsent::new(rng.next_u64()));
+            acc.observe(&format!("float-extract-special|{}|{}", pname, if special.is_nan() { "NaN".to_string() } else { format!("{:e}", special) }), true);
+            let same32 = |a: Option<f32>, b: Option<f32>| match (a, b) {
+                (Some(p), Some(q)) => p.to_bits() == q.to_bits() || (p.is_nan() && q.is_nan()),
+                (None, None) => true,
+                _ => false,
+            };
+            let same64 = |a: Option<f64>, b: Option<f64>| match (a, b) {
+                (Some(p), Some(q)) => p.to_bits() == q.to_bits() || (p.is_nan() && q.is_nan()),
+                (None, None) => true,
+                _ => false,
+            };
+            let g32: Option<f32> = <B as SupersetOf<f32>>::to_subset(&xs);
+            let g64: Option<f64> = <B as SupersetOf<f64>>::to_subset(&xs);
+            let (m32, m64) = (<B as SupersetOf<f32>>::is_in_subset(&xs), <B as SupersetOf<f64>>::is_in_subset(&xs));
+            // the float's own answers for the stored real part
+            let (w32, w64, wm32, wm64): (Option<f32>, Option<f64>, bool, bool) = if B::IS_F32 {
+                let r = special as f32;
+                (<f32 as SupersetOf<f32>>::to_subset(&r), <f32 as SupersetOf<f64>>::to_subset(&r), <f32 as SupersetOf<f32>>::is_in_subset(&r), <f32 as SupersetOf<f64>>::is_in_subset(&r))
+            } else {
+                (<f64 as SupersetOf<f32>>::to_subset(&special), <f64 as SupersetOf<f64>>::to_subset(&special), <f64 as SupersetOf<f32>>::is_in_subset(&special), <f64 as SupersetOf<f64>>::is_in_subset(&special))
+            };
+            if !same32(g32, w32) || !same64(g64, w64) || m32 != wm32 || m64 != wm64 {
+                bad!("float-extract-special", format!("to_subset::<f32>/<f64> and is_in_subset at real part {:?} (parts present: {}): {:?} / {:?} / {} / {}, the plain float answers {:?} / {:?} / {} / {}", special, with_parts, g32, g64, m32, m64, w32, w64, wm32, wm64));
+            }
+        }
         // --- through nalgebra's generic conversions on containers
         acc.observe(&format!("nalgebra-convert|{}|{}", pname, shape.name()), true);
         let mk_a = |rng: &mut Rng| -> A {
